@@ -28,6 +28,13 @@ MAP = [
     ("V:pairs:energy:lj.shape", "lattice_energy"),
     ("V:opt:set_value:", "basis_set_reset"),
     ("V:opt:reset_value:", "basis_set_reset"),
+    ("V:opt:set_sampled:", "basis_set_sampled"),
+    ("V:opt:sample:", "basis_set_sampled"),
+    ("V:opt:optimise_state:", "optimiser_contract"),
+    ("V:opt:accept_score", "optimiser_contract"),
+    ("V:opt:test_acceptance:", "optimiser_contract"),
+    ("V:opt:energy_surface:", "optimiser_contract"),
+    ("V:opt:build:", "optimiser_contract"),
 ]
 
 
